@@ -53,7 +53,7 @@ struct Opts {
 	bool undefStim = false;
 	bool triNaive = false;    // bidirectional pin: the simulation process releases the pin with 'Z' while the design drives it
 	bool setAtPowerOn = false; // first SETs are issued at power-on (time 0, outside the event loop) instead of after a short wait
-	unsigned extra = 0;       // bit mask of extra parts: 1 wide arithmetic, 2 memory, 4 tristate pin, 8 BLOCK (area with an entity inside)
+	unsigned extra = 0;       // bit mask of extra parts: 1 wide arithmetic, 2 memory, 4 tristate pin, 8 BLOCK (area with an entity inside), 16 shapes of fixed findings
 	uint64_t extraSeed = 0;
 };
 
@@ -124,6 +124,17 @@ static void buildExtras(Extra &x, const Opts &o, const Clock &clock)
 		}
 		auto p = pinOut(res).setName("x_bres"); x.outPins.push_back(p.node()); x.outWidths.push_back(w);
 		x.desc += " block=" + std::to_string(w);
+	}
+	if (o.extra & 16) { // the shapes of two fixed findings: bit 0 of a one bit wide sum; a register that directly drives an OUT port of a sub-entity
+		UInt a = pinIn(1_b).setName("x_fa"); Bit d = pinIn().setName("x_fd");
+		addIn(x, a); addIn(x, d);
+		UInt s = a + a;
+		Bit b0 = s[0];
+		Bit q;
+		{ Area sub("x_sub", true); q = reg(d ^ b0, '1'); }
+		auto p1 = pinOut(b0).setName("x_fb0"); auto p2 = pinOut(q).setName("x_fq");
+		x.outPins.insert(x.outPins.end(), {p1.node(), p2.node()}); x.outWidths.insert(x.outWidths.end(), {0, 0});
+		x.desc += " f45";
 	}
 	if (o.extra & 4) { // tristate pin
 		size_t w = rng.below(3) == 0 ? 0 : 1 + rng.below(6);
@@ -410,7 +421,7 @@ int main(int argc, char **argv)
 		o.style = (unsigned) rng.below(3);
 		o.undefStim = (flags & 32) && rng.chance(1, 2);
 		o.setAtPowerOn = (flags & 64) && rng.chance(1, 2);
-		if (flags & 16) { if (rng.chance(1, 2)) o.extra = (unsigned) rng.below(16); }
+		if (flags & 16) { if (rng.chance(1, 2)) o.extra = (unsigned) rng.below(32); }
 		o.triNaive = (flags & 128) && rng.chance(1, 2);
 		if ((o.extra & 4) && o.triNaive) o.setAtPowerOn = false; // at most one of the two recorder findings per case
 		o.extraSeed = rng.next();
